@@ -143,7 +143,9 @@ def one_case(ctx: Ctx, J, s, s2, dtype, exact_model: bool):
             ctx.count("skipped_ill_conditioned")
             continue
         wscale = max(maxabs(u), maxabs(w_impl), Fr(1, 10 ** 30))
-        tau_w = Fr(tol_rel) * wscale
+        # + the QP solver's ABSOLUTE feasibility tolerance (a kernel; the Gramian it sees is normalised, so ~1e-15 whatever the
+        #   magnitude of the preference vector: observed up to 1.4e-15 with preferences of 1e-8 … 1e-12; allowance 2e-14)
+        tau_w = Fr(tol_rel) * wscale + Fr(2, 10 ** 14)
         rowsum = max(sum(abs(v) for v in r) for r in J)
         tau_x = tau_w * rowsum * m + Fr(8 * uu) * maxabs(x_impl)
         # (a) x = J^T w
@@ -193,6 +195,35 @@ def one_case(ctx: Ctx, J, s, s2, dtype, exact_model: bool):
                     {**rp, "weights_impl": [str(float(v)) for v in w_impl], "weights_model": [str(float(v)) for v in w_mod]})
 
 
+def norm_eps_boundary(ctx: Ctx, dtype):
+    """"for all matrices with s >= norm_eps": equality included.  With norm_eps set to the largest singular value AS THE
+    LIBRARY'S OWN ROUTINE COMPUTES IT (torch.linalg.svd in the matrix's dtype) the projection is still required — the result must
+    be the one obtained with norm_eps one unit in the last place lower, not the unprojected Jᵀu"""
+    import math
+    rng = ctx.rng
+    m = rng.choice([2, 3])
+    n = rng.choice([2, 3, 4])
+    J = m_int(rng, m, n, kind="plain")
+    Jt = to_tensor(J, dtype)
+    if float(Jt.abs().max()) == 0:
+        return
+    G = Jt.double() @ Jt.double().T
+    if float(G.min()) >= 0:
+        return                                   # no conflict: projected and unprojected coincide
+    s = float(torch.linalg.svd(Jt, full_matrices=False).S.max())
+    below = float(torch.nextafter(torch.tensor(s, dtype=dtype), torch.tensor(0.0, dtype=dtype)))
+    name, cls = rng.choice([("UPGrad", UPGrad), ("DualProj", DualProj)])
+    st1, x1 = run_agg(cls(norm_eps=s), Jt)
+    st0, x0 = run_agg(cls(norm_eps=below), Jt)
+    ctx.case(("norm-eps-boundary", name, sx(J), str(dtype)), nontrivial=True)
+    ctx.count("norm_eps_boundary", name)
+    if st1 != st0 or (st1 == "ok" and not torch.allclose(x1, x0, rtol=1e-5, atol=0)):
+        ctx.violation(f"{name} with norm_eps EQUAL to the largest singular value ({s!r}, as torch.linalg.svd computes it in {dtype}) returns "
+                      f"{x1.tolist() if st1 == 'ok' else x1}; with norm_eps one ulp lower it returns {x0.tolist() if st0 == 'ok' else x0} (the "
+                      "projection is required for s >= norm_eps)", {"aggregator": name, "J": [[str(v) for v in r] for r in J], "dtype": str(dtype),
+                                                                "norm_eps": repr(s)})
+
+
 def main(ctx: Ctx):
     ctx.lean_gate()
     rng = ctx.rng
@@ -201,6 +232,8 @@ def main(ctx: Ctx):
         m = rng.choice([1, 2, 2, 3, 3, 4, 5])
         n = rng.choice([1, 2, 3, 4, 6])
         dtype = torch.float64 if i % 3 else torch.float32
+        if i % 5 == 0:
+            norm_eps_boundary(ctx, dtype)
         if i % 8 == 5:
             # wide Jacobian of small gradients: every entry below norm_eps but s above it (s^2 via mpmath)
             mm, nn = rng.choice([2, 3]), rng.randint(60, 200)
